@@ -94,7 +94,17 @@ def _note_spec():
     return dict(nodes=nodes, marks=s["marks"])
 
 
+def _notehtml_spec():
+    s = _list_spec()
+    nodes = dict(s["nodes"])
+    nodes["doc"] = {"content": "block+", "marks": "_"}
+    nodes["footnote"] = {"group": "inline", "content": "text*", "inline": True, "atom": True, "marks": "",
+                         "parseDOM": [{"tag": "span.fn"}], "toDOM": lambda node: ["span", {"class": "fn"}, 0]}
+    return dict(nodes=nodes, marks=s["marks"])
+
+
 SPECS = {
+    "notehtml": _notehtml_spec,
     "note": _note_spec,
     "basic": _basic_spec,
     "list": _list_spec,
